@@ -416,6 +416,18 @@ func runC02(c *Ctx) {
 		}
 		c.check(okAdd, "C02.replay-records-own", "own logged votes are re-added", ar.Pos(), "hvs.add on the own-vote arm", "own logged votes are not restored into the height vote set")
 	}
+
+	// ---- "remembered across crashes that leave torn records": the WAL recovery
+	// obligations of C03 are necessary conditions of C02 as well (a vote that is
+	// lost or cut off by a bad repair is signed again).
+	sub := &Ctx{Prop: c.Prop, Tier: c.Tier, L: c.L}
+	runC03(sub)
+	for _, o := range sub.obs {
+		o2 := *o
+		o2.Rule = "C02.wal-recovery/" + strings.TrimPrefix(o.Rule, "C03.")
+		c.obs = append(c.obs, &o2)
+	}
+	c.callSites += sub.callSites
 }
 
 type stepUpdate struct {
